@@ -334,6 +334,10 @@ func tail(s string, n int) string {
 }
 
 func writeEvidence(prop, tier string, seed uint64, plan Plan, a *agg, enumRuns int, wall float64, reported, known []string) {
+	if os.Getenv("VERIF_REPO") != "" {
+		// a run against another tree (seeded changes, debugging) is not evidence
+		return
+	}
 	os.MkdirAll(verif+"/evidence", 0o755)
 	var samples []any
 	for _, s := range a.samples {
